@@ -24,7 +24,7 @@ pub fn build(full_name: &str, level: u8) -> Option<Scenario> {
     let name = full_name.trim_end_matches("-live");
     match name {
         // ------------------------------------------------------------ ELECT
-        "elect" | "elect-pv" | "elect-cq" | "elect-pvcq" | "elect-prio" => {
+        n if n.starts_with("elect") => {
             s = Scenario::new(name, 3);
             for n in s.nodes.iter_mut() {
                 n.pre_vote = name.contains("pv");
@@ -35,8 +35,29 @@ pub fn build(full_name: &str, level: u8) -> Option<Scenario> {
             }
             s.crashable = vec![1, 2, 3];
             s.max_index = 8;
+            if n.contains("-nosync") {
+                for nd in s.nodes.iter_mut() {
+                    nd.skip_sync_when_allowed = true;
+                }
+            }
+            if n.contains("-stale") {
+                // node 2 missed a committed entry: its log is behind those of 1 and 3
+                s.prefix = vec![
+                    Action::Timeout(1),
+                    Action::Settle,
+                    Action::Crash(2, 9),
+                    Action::Propose(1, 0),
+                    Action::Settle,
+                    Action::DropAll,
+                    Action::Restart(2),
+                ];
+                s.clients_at = vec![1];
+                s.timeoutable = vec![2, 3];
+            }
             // ladder
             let (mt, to, drops, dups, cuts, crashes, reorders, beats) = match l {
+                0 => (2, 2, 0, 0, 0, 1, 0, 0),
+                1 if n.contains("-stale") => (3, 2, 0, 0, 1, 1, 0, 0),
                 1 => (2, 2, 0, 0, 0, 0, 0, 0),
                 2 => (2, 2, 1, 1, 1, 0, 0, 0),
                 3 => (3, 3, 0, 0, 0, 0, 0, 0),
@@ -57,15 +78,20 @@ pub fn build(full_name: &str, level: u8) -> Option<Scenario> {
             });
         }
         // ------------------------------------------------------------ FIG8
-        "fig8" | "fig8-div" | "fig8-5" => {
-            let n = if name == "fig8-5" { 5 } else { 3 };
-            s = Scenario::new(name, n);
+        n if n.starts_with("fig8") => {
+            let n5 = n.contains("-5");
+            let nn = if n5 { 5 } else { 3 };
+            s = Scenario::new(name, nn);
             for nd in s.nodes.iter_mut() {
                 nd.max_size_per_msg = 0; // one entry per append
+                nd.pre_vote = n.contains("-pv");
+                nd.check_quorum = n.contains("-cq");
             }
+            let n = nn;
             s.crashable = (1..=n as u8).collect();
             s.clients_at = (1..=n as u8).collect();
             let (mt, to, props, drops, dups, crashes, mi) = match l {
+                0 => (2, 2, 2, 0, 0, 0, 3),
                 1 => (3, 2, 1, 0, 0, 0, 3),
                 2 => (3, 3, 1, 0, 0, 0, 3),
                 3 => (3, 3, 1, 1, 0, 1, 4),
@@ -83,7 +109,7 @@ pub fn build(full_name: &str, level: u8) -> Option<Scenario> {
                 c.dups = dups;
                 c.crashes = crashes;
             });
-            if name == "fig8-div" {
+            if name.contains("-div") {
                 // node 1 led term 1 and node 3 led term 2, each with a local-only entry:
                 // the state just before a Figure-8 hand-over
                 s.prefix = vec![
@@ -170,6 +196,7 @@ pub fn build(full_name: &str, level: u8) -> Option<Scenario> {
             for nd in s.nodes.iter_mut() {
                 if n.contains("-async") {
                     nd.mode = AppMode::Async;
+                    nd.loose_async = n.contains("-loose");
                 }
                 if n.contains("-lag") {
                     nd.apply_lag = true;
@@ -263,6 +290,34 @@ pub fn build(full_name: &str, level: u8) -> Option<Scenario> {
             s.crashable = vec![2];
             s.prop_sizes = if flow { vec![0, 1, 3] } else { vec![1] };
             s.setcap_values = vec![0, 1, 3];
+            if n.contains("-cap") {
+                // runtime window resizing with a single payload size
+                for nd in s.nodes.iter_mut() {
+                    nd.max_uncommitted_size = raft::NO_LIMIT;
+                }
+                s.prop_sizes = vec![1];
+                s.setcap_values = vec![1, 3];
+            }
+            if n.contains("-mix") {
+                // size-limited appends over entries of very different sizes, follower 3 lagging
+                for nd in s.nodes.iter_mut() {
+                    nd.max_size_per_msg = 30;
+                    nd.max_inflight = 2;
+                }
+                s.inputs_per_ready = 2;
+                s.prop_sizes = vec![1, 40];
+                s.prefix = vec![
+                    Action::Timeout(1),
+                    Action::Settle,
+                    Action::Crash(3, 9),
+                    Action::Propose(1, 0),
+                    Action::Settle,
+                    Action::Propose(1, 1),
+                    Action::Settle,
+                    Action::DropAll,
+                    Action::Restart(3),
+                ];
+            }
             s.fault_types = vec![
                 raft::eraftpb::MessageType::MsgAppend as u8,
                 raft::eraftpb::MessageType::MsgAppendResponse as u8,
@@ -278,6 +333,8 @@ pub fn build(full_name: &str, level: u8) -> Option<Scenario> {
             };
             s.max_index = mi + if n.contains("-div") { 1 } else { 0 };
             s.max_term = 3;
+            let cap_variant = n.contains("-cap");
+            let mix = n.contains("-mix");
             s.caps = caps(|c| {
                 c.props = props;
                 c.beats = beats;
@@ -289,6 +346,18 @@ pub fn build(full_name: &str, level: u8) -> Option<Scenario> {
                 if flow {
                     c.setcaps = setcaps;
                     c.unreach = unreach;
+                }
+                if cap_variant {
+                    c.props = 3;
+                    c.setcaps = 1 + (l as u8) / 2;
+                    c.beats = (l as u8).min(2);
+                    c.reorders = 0;
+                }
+                if mix {
+                    c.props = 1 + (l as u8) / 2;
+                    c.beats = 1 + (l as u8) / 2;
+                    c.lazy = 2 + l as u8;
+                    c.reorders = 0;
                 }
             });
         }
@@ -333,7 +402,16 @@ pub fn build(full_name: &str, level: u8) -> Option<Scenario> {
             } else {
                 s.prefix = vec![Action::Timeout(1), Action::Settle];
             }
-            if !n.contains("-rm1") {
+            if n.contains("-mix") {
+                // batched proposals: [normal, conf change] in one MsgPropose, leader applies lazily
+                s.mix_proposals = true;
+                s.cc_menu = if l == 0 { vec![CcSpec::V1(0, 4)] } else { vec![CcSpec::V1(0, 4), CcSpec::V1(1, 3)] };
+                for nd in s.nodes.iter_mut().skip(1) {
+                    nd.apply_lag = false;
+                }
+                s.timeoutable = vec![];
+            }
+            if !n.contains("-rm1") && !n.contains("-mix") {
                 s.clients_at = vec![1, 2];
                 s.timeoutable = vec![1, 2, 3, 4];
             }
@@ -342,8 +420,12 @@ pub fn build(full_name: &str, level: u8) -> Option<Scenario> {
             if l == 0 {
                 s.clients_at = vec![1];
             }
+            if n.contains("-mix") {
+                s.clients_at = vec![1];
+            }
             let (ccs, props, to, crashes, mt, mi, xf, lazy) = match l {
                 1 if n.contains("-rm1") => (1, 1, 0, 0, 2, 6, 0, 1),
+                0 | 1 if n.contains("-mix") => (2, 1, 0, 0, 2, 7, 0, 1),
                 0 => (1, 0, 0, 0, 2, 5, 0, 1),
                 1 => (1, 0, 0, 0, 2, 5, 0, 1),
                 2 => (1, 1, 1, 0, 3, 6, 0, 1),
@@ -445,13 +527,19 @@ pub fn build(full_name: &str, level: u8) -> Option<Scenario> {
                 raft::eraftpb::MessageType::MsgReadIndexResp as u8,
             ];
             let (reads, props, to, beats, dups, drops, crashes, ccs, reorders) = match l {
+                0 => (1, 0, 0, 1, 0, 0, 0, 0, 0),
                 1 => (1, 0, 1, 1, 0, 0, 0, 0, 0),
-                2 => (2, 1, 1, 1, 1, 0, 0, 0, 0),
-                3 => (2, 1, 1, 2, 1, 1, 0, 0, 1),
-                4 => (2, 1, 2, 2, 1, 1, 1, 0, 1),
+                2 => (2, 0, 1, 1, 0, 0, 0, 0, 0),
+                3 => (1, 1, 1, 1, 1, 0, 0, 0, 0),
+                4 => (2, 1, 1, 1, 1, 0, 0, 0, 0),
+                5 => (2, 1, 1, 2, 1, 1, 0, 0, 1),
+                6 => (2, 1, 2, 2, 1, 1, 1, 0, 1),
                 _ => (3, 2, 2, 3, 2, 1, 1, 1, 1),
             };
             let ccs = if n.contains("-cc") { ccs.max(1) } else { 0 };
+            if n.contains("-cc") && l <= 1 {
+                s.clients_at = vec![1];
+            }
             s.max_term = 3;
             s.max_index = 5;
             s.caps = caps(|c| {
@@ -468,9 +556,13 @@ pub fn build(full_name: &str, level: u8) -> Option<Scenario> {
         }
         // ------------------------------------------------------------ XFER
         n if n.starts_with("xfer") => {
-            s = Scenario::new(name, 4);
-            s.voters = vec![1, 2, 3];
-            s.learners = vec![4];
+            if n.contains("-abort") {
+                s = Scenario::new(name, 3);
+            } else {
+                s = Scenario::new(name, 4);
+                s.voters = vec![1, 2, 3];
+                s.learners = vec![4];
+            }
             for nd in s.nodes.iter_mut() {
                 nd.pre_vote = n.contains("-pvcq");
                 nd.check_quorum = n.contains("-pvcq");
@@ -492,7 +584,19 @@ pub fn build(full_name: &str, level: u8) -> Option<Scenario> {
             s.timeoutable = vec![];
             s.transfer_targets = vec![1, 2, 3, 4, 9];
             s.cc_menu = vec![CcSpec::V1(1, 3)];
+            let abort = n.contains("-abort");
+            if abort {
+                // one transfer to a voter, the leader ticks past the transfer timeout and goes on
+                s.clients_at = vec![1];
+                s.transfer_targets = vec![2];
+                for nd in s.nodes.iter_mut() {
+                    nd.heartbeat_tick = 2;
+                }
+            }
             let (xf, props, beats, drops, dups, ccs, mt) = match l {
+                0 if abort => (1, 1, 3, 0, 0, 0, 3),
+                1 if abort => (1, 1, 4, 1, 0, 0, 3),
+                2 if abort => (2, 1, 4, 1, 1, 0, 3),
                 0 => (1, 0, 0, 0, 0, 0, 3),
                 1 => (1, 1, 0, 0, 0, 0, 3),
                 2 => (2, 1, 3, 0, 0, 0, 3),
